@@ -94,6 +94,13 @@ UNI_WORDS = ["it\u2019s", "\u201cquoted\u201d", "\u2018single\u2019", "\u201alow
              "\u00bd", "x\u00b2", "\u2122", "wide\u3000space", "5\u2032 3\u2033", "\u02bcmod", "`\u00b4", "soft\u00adhyphen",
              "\u2212 1", "a\u2044b", "\u01c5", "\u1e9e", "o\u0308", "\u00f6"]
 
+TYPOGRAPHY = frozenset(ch for w in UNI_WORDS for ch in w if ord(ch) > 0x7f)
+
+
+def has_typography(text, limit=4000):
+    return any(ch in TYPOGRAPHY for ch in text[:limit])
+
+
 # hostile fragments grouped by the repair-table kind they can trigger inside a string literal
 HOSTILE = {
     "python-literal": ["True North", "None of it", "not False", "None", "True", "False", "is True?", "(None)",
